@@ -84,7 +84,7 @@ def gen_dag(rng, n, shape=None):
 
 
 def gen_workflow(rng, machines, nmax=12, zero_bias=0.1, big=False, shape=None, labels=None):
-    n = rng.randint(1, nmax)
+    n = rng.randint(1, nmax) if nmax <= 40 else rng.randint(41, nmax)
     edges, shape = gen_dag(rng, n, shape)
     slow = min(m['flops'] for m in machines)
     fast = max(m['flops'] for m in machines)
@@ -188,7 +188,8 @@ def topo_order(wf):
     return order
 
 
-def gen_case(rng, stratum, pairing, tier='quick', delays=None, adversary=None, unit=None):
+def gen_case(rng, stratum, pairing, tier='quick', delays=None, adversary=None, unit=None,
+             wide=False):
     """One simulation case."""
     st = stratum
     # ---- cluster
@@ -220,12 +221,24 @@ def gen_case(rng, stratum, pairing, tier='quick', delays=None, adversary=None, u
     else:
         k = rng.choice([1, 2, 2, 3, 3, 4, 5])
     obs = []
+    same_start = st == 'simul' and rng.random() < 0.4      # >=3 observations due in one step
+    if same_start:
+        k = max(k, 4)            # one early observation whose workflow keeps machines busy,
+        max_ingest = n           # then >=3 observations due in one and the same later step
+    t_same = None
     t = rng.choice([0, 0, 1, 2, 5])
     for i in range(k):
         dur = rng.randint(1, 8)
         if st == 'zero' and rng.random() < 0.6:
             dur = 1
-        if st == 'simul':
+        if same_start:
+            if i == 0:
+                start = t
+            else:
+                if t_same is None:
+                    t_same = obs[0]['start'] + obs[0]['duration'] + rng.choice([1, 2, 3, 4])
+                start = t_same
+        elif st == 'simul':
             # several observations due in the same step
             start = t if (i > 0 and rng.random() < 0.7) else t + rng.choice([0, 1, 2, 3])
         elif st == 'contend':
@@ -243,14 +256,26 @@ def gen_case(rng, stratum, pairing, tier='quick', delays=None, adversary=None, u
         ing = rng.randint(1, max_ingest)
         if st in ('simul', 'contend') and rng.random() < 0.5:
             ing = max(1, max_ingest // 2)
+        if same_start:
+            ing = rng.randint(1, max(1, (n + 1) // 2))
+            demand = 1
         wf = gen_workflow(rng, machines, nmax=(6 if st == 'zero' else rng.choice([4, 6, 8, 12])),
                           zero_bias=(0.45 if st == 'zero' else 0.08),
                           big=(st == 'contend'))
+        if wide:
+            # a ready frontier wider than the cluster: forks / layered graphs with many nodes
+            wf = gen_workflow(rng, machines, nmax=12, zero_bias=0.05, big=True,
+                              shape=rng.choice(['fork', 'layered', 'random', 'diamond']))
+            while len(wf['nodes']) < 5:
+                wf = gen_workflow(rng, machines, nmax=12, zero_bias=0.05, big=True,
+                                  shape=rng.choice(['fork', 'layered', 'diamond']))
         if st == 'zero' and rng.random() < 0.4:
             wf = gen_workflow(rng, machines, nmax=1, zero_bias=0.5)
         obs.append({'name': 'o%d' % i, 'start': start, 'duration': dur, 'demand': demand,
                     'rate': rate, 'ingest_demand': ing, 'workflow': wf})
         t = start + (dur if st not in ('simul',) else rng.choice([0, dur]))
+        if same_start:
+            t = start
     # ---- buffers
     vols = [o['rate'] * o['duration'] for o in obs]
     tot, big = sum(vols), max(vols)
@@ -258,8 +283,19 @@ def gen_case(rng, stratum, pairing, tier='quick', delays=None, adversary=None, u
     hot_rate = maxrate + rng.choice([0, 0, 1, 5])
     cold_rate = rng.choice([1, 2, 3, maxrate, maxrate + 3, 2 * maxrate])
     if st == 'tight':
-        mode = rng.choice(['single_over', 'cumulative', 'cold_small'])
-        if mode == 'single_over':
+        mode = rng.choice(['single_over', 'cumulative', 'cold_small', 'exact', 'exact'])
+        if mode == 'exact':
+            # resident data reaches exactly 60 % of the hot buffer: no tiering may start
+            cand = [v for v in sorted(set(vols + [tot])) if v % 3 == 0 and v * 5 // 3 > big]
+            if cand:
+                v = rng.choice(cand)
+                hot_cap = v * 5 // 3
+                cold_cap = rng.choice([hot_cap, 2 * hot_cap, tot + 1])
+            else:
+                mode = 'cumulative'
+        if mode == 'exact':
+            pass
+        elif mode == 'single_over':
             # one observation alone crosses the 60 % tiering threshold
             hot_cap = rng.randint(big + 1, max(big + 1, int(big / 0.6)))
             cold_cap = rng.choice([big, big + 1, hot_cap, 2 * hot_cap])
@@ -281,7 +317,7 @@ def gen_case(rng, stratum, pairing, tier='quick', delays=None, adversary=None, u
     if pairing == 'batch':
         parts = rng.randint(1, min(4, n))
         share = n // parts
-        lo = 1 if tier == 'quick' else 0
+        lo = 0 if rng.random() < (0.15 if tier == 'quick' else 0.3) else 1
         minres = rng.randint(lo, share) if share >= lo else share
         alg = {'partitions': parts, 'min_resources': minres}
         if rng.random() < 0.15:
@@ -292,8 +328,11 @@ def gen_case(rng, stratum, pairing, tier='quick', delays=None, adversary=None, u
                 split[o['name']] = [mn, mx]                 # minimum would be contradictory
             alg['resource_split'] = split
     static = None
+    static_est = 'duration'
     if pairing in ('dynamic', 'greedy'):
         static = {o['name']: _static_assignment(rng, o['workflow'], machines) for o in obs}
+        if rng.random() < 0.3:
+            static_est = 'future'
     # ---- delays
     if delays is None:
         delays = rng.choice(['none', 'none', 'fixed'])
@@ -316,7 +355,7 @@ def gen_case(rng, stratum, pairing, tier='quick', delays=None, adversary=None, u
         'observations': obs,
         'buffer': {'hot': {'capacity': hot_cap, 'max_ingest_rate': hot_rate},
                    'cold': {'capacity': cold_cap, 'max_data_rate': cold_rate}},
-        'alg': alg, 'static': static, 'delays': dl,
+        'alg': alg, 'static': static, 'static_est': static_est, 'delays': dl,
         'adversary': adversary, 'permute': None,
     }
     if unit is not None:
